@@ -38,7 +38,7 @@ import (
 type mtCaseTLS struct {
 	Proto string `json:"proto"`
 	Mux   bool   `json:"mux"`
-	Kind  string `json:"kind"` // intruders | impostor-nocert | impostor-chain
+	Kind  string `json:"kind"` // intruders | impostor-nocert | impostor-chain | inherited-cert
 }
 
 func init() { families["mtls"] = runMTLS }
@@ -216,6 +216,12 @@ func runOneMTLS(c mtCaseTLS, base string, idx int, put func(in, obs sx.V)) {
 	if c.Proto == "grpc" {
 		mainPath = 1
 	}
+	if c.Kind == "inherited-cert" {
+		legit, outsider := inheritedCertAnswers(c.Proto, pdir)
+		rec(mainPath, 9, true, legit)
+		rec(mainPath, 5, true, outsider)
+		return
+	}
 	if c.Kind == "impostor-chain" {
 		rec(mainPath, 10, true, impostorChainAnswered(c.Proto, pdir))
 		return
@@ -334,6 +340,7 @@ func runOneMTLS(c mtCaseTLS, base string, idx int, put func(in, obs sx.V)) {
 func runMTLS(o opts) error {
 	cs := []mtCaseTLS{{"netrpc", false, "intruders"}, {"grpc", false, "intruders"}, {"grpc", true, "intruders"},
 		{"netrpc", false, "impostor-chain"}, {"grpc", false, "impostor-chain"},
+		{"netrpc", false, "inherited-cert"}, {"grpc", false, "inherited-cert"},
 		{"netrpc", false, "impostor-nocert"}, {"grpc", false, "impostor-nocert"}, {"grpc", true, "impostor-nocert"}}
 	if o.cases != "" {
 		cs = nil
@@ -438,4 +445,49 @@ func impostorChainAnswered(proto, dir string) bool {
 		}
 	})
 	return answered
+}
+
+// inheritedCertAnswers: the host is itself an AutoMTLS plugin of somebody else, so its own environment carries a
+// PLUGIN_CLIENT_CERT (the certificate of ITS host).  It passes its environment on (SkipHostEnv off) and launches a plugin
+// with AutoMTLS.  The plugin must pin this host's fresh certificate, not the inherited one: the legitimate host is
+// answered, the holder of the inherited certificate is not.
+func inheritedCertAnswers(proto, dir string) (legit, outsider bool) {
+	out := selfSigned(true)
+	os.Setenv("PLUGIN_CLIENT_CERT", string(pem.EncodeToMemory(&pem.Block{Type: "CERTIFICATE", Bytes: out.Certificate[0]})))
+	defer os.Unsetenv("PLUGIN_CLIENT_CERT")
+	cfg := vpClientConfig(vpOpts{Proto: proto, AutoMTLS: true, TmpDir: dir, StartTO: 8 * time.Second})
+	var own []string
+	for _, kv := range cfg.Cmd.Env {
+		if strings.HasPrefix(kv, "VP_CONFIG=") {
+			own = append(own, kv)
+		}
+	}
+	cfg.Cmd.Env = own // the command's own entries only; the host environment comes in through SkipHostEnv = false
+	cfg.SkipHostEnv = false
+	cl := plugin.NewClient(cfg)
+	defer boundedKill(cl)
+	within(15*time.Second, func() {
+		rpcc, err := cl.Client()
+		if err != nil {
+			return
+		}
+		raw, err := rpcc.Dispense("vp")
+		if err != nil {
+			return
+		}
+		if _, err := bounded(raw.(vp.Caller)).Call(vp.Req{Op: "tag"}); err == nil {
+			legit = true
+		}
+	})
+	rc := cl.ReattachConfig()
+	if rc == nil {
+		return legit, false
+	}
+	tc := &tls.Config{InsecureSkipVerify: true, MinVersion: tls.VersionTLS12, Certificates: []tls.Certificate{out}, ServerName: "localhost"}
+	if proto == "grpc" {
+		outsider = grpcAttempt(rc.Addr.String(), tc, false)
+	} else {
+		outsider = netrpcAttempt(rc.Addr.String(), tc)
+	}
+	return legit, outsider
 }
